@@ -671,6 +671,14 @@ CORPUS = [
     # ------------------------------------------------------------------ C03 wire conformance
     B("c03-side-byte-lowercase", ["C03", "C06"], [(SP, 'SideA = b"A"', 'SideA = b"a"')], tests="killed"),
     B("c03-element-size-off", ["C03", "C15"], [("ed25519_group.py", "Ed25519Group.element_size_bytes = 32", "Ed25519Group.element_size_bytes = 33")]),
+    # ------------------------------------------------------------------ the square-root helper (C15 K5-root, C14 H6)
+    B("c15-xrecover-wrong-exponent", ["C15", "C14"], [(ED, "    x = pow(xx,(Q+3)//8,Q)\n    if (x*x - xx) % Q != 0: x = (x*I) % Q", "    x = pow(xx,(Q+11)//8,Q)\n    if (x*x - xx) % Q != 0: x = (x*I) % Q")], tests="killed"),
+    N("c15-xrecover-exponent-same-value", [(ED, "    x = pow(xx,(Q+3)//8,Q)\n    if (x*x - xx) % Q != 0: x = (x*I) % Q", "    x = pow(xx,(Q+5)//8,Q)\n    if (x*x - xx) % Q != 0: x = (x*I) % Q")], note="(Q+5)//8 == (Q+3)//8 for Q = 2^255-19"),
+    B("c15-xrecover-odd-root", ["C15", "C14"], [(ED, "    if x % 2 != 0: x = Q-x\n    return x\n\nBy", "    if x % 2 == 0 and x > Q//2: x = Q-x\n    return x\n\nBy")], tests="killed",
+      note="returns the odd root for large even roots"),
+    B("c15-xrecover-skips-i-branch-for-small", ["C15", "C14"], [(ED, "    if (x*x - xx) % Q != 0: x = (x*I) % Q", "    if (x*x - xx) % Q != 0 and xx > 2**200: x = (x*I) % Q")],
+      note="only y whose xx is below 2^200 are affected (probability 2^-55): valid encodings of such points are rejected and M/N/S derivation could change"),
+    N("c15-xrecover-reordered", [(ED, "    xx = (y*y-1) * inv(d*y*y+1)", "    den = d*y*y+1\n    xx = (y*y-1) * inv(den)")]),
     # ------------------------------------------------------------------ C16 isolation
     B("c16-blinding-cache-on-params", ["C16"], [(SP, """        pw_blinding = self.my_blinding().scalarmult(self.pw_scalar)
 """, """        cache = self.params.__dict__.setdefault("_blind_cache", {})
